@@ -15,6 +15,23 @@ package main
 // accepted on behalf of the DIFFERENT account its altered signature happens to
 // recover to (the driver provokes this by funding that account); every
 // (account, nonce) executes at most once over random interleavings.
+//
+// Multi-message Ethereum transactions (kind "multi"): one Cosmos transaction may
+// carry several MsgEthereumTx, each with its own signature.  The driver builds
+// such transactions with /repo's own helper (testutil/tx.PrepareEthTx: fee and
+// gas = sum over the messages, one ExtensionOptionsEthereumTx) from an explicit
+// script -- same sender with nonces n, n+1; the same signed transaction twice;
+// two transactions with the same nonce; gaps, reversed and future nonces; two
+// senders interleaved; a replayed message beside a fresh one; a message altered
+// after signing -- and runs every one through the real ante handler (on a
+// discarded branch, for the error class) and through the real DeliverTx of a
+// real block.  Observed: the DeliverTx code, every account's sequence before and
+// after, how often every signed message executed (its private recipient's
+// balance), what the senders paid.  Oracle: a signed transaction (hash) executes
+// at most once and only at the then-current sequence of the account its
+// signature recovers to; a Cosmos transaction containing a replayed, out-of-order
+// or altered message fails as a whole without any effect; an in-order batch is
+// accepted and every message of it executes exactly once.
 
 import (
 	"bytes"
@@ -631,8 +648,16 @@ type sgSub struct {
 	Class   string `json:"class"`    // error class of the implementation
 	Who     int    `json:"who"`      // interned account the transaction executed for, -1 = rejected
 	OtherOK bool   `json:"other_ok"` // false = refused by a check the model does not contain
-	coq     string
-	seqs    []uint64
+	// multi-message transactions only
+	Msgs      []string `json:"msgs,omitempty"`       // the signed messages, in order
+	Whos      []int    `json:"whos,omitempty"`       // per executed message, in order: the account it executed for
+	Executed  []int    `json:"executed,omitempty"`   // per message: how often its signed transaction has executed in THIS Cosmos tx
+	SeqBefore []uint64 `json:"seq_before,omitempty"` // sequences of the interned accounts
+	SeqAfter  []uint64 `json:"seq_after,omitempty"`
+	Deliver   string   `json:"deliver,omitempty"` // DeliverTx code and log
+	coq       string
+	coqs      []string // one descriptor per message (multi-message transactions)
+	seqs      []uint64
 }
 
 type sgHist struct {
@@ -709,7 +734,21 @@ func (c *sgCase) coq() string {
 			for len(seqs) < na {
 				seqs = append(seqs, 0)
 			}
-			steps = append(steps, fmt.Sprintf("(%s, %s, %s, %s)", s.coq, coqBool(s.OtherOK), sigCoqOptN(s.Who), coqU64s(seqs)))
+			// a submission = the list of its signed units; outcome = the executing accounts in message order
+			units, who := []string{s.coq}, "None"
+			if s.coqs != nil {
+				units = s.coqs
+				if s.Whos != nil {
+					ws := []string{}
+					for _, x := range s.Whos {
+						ws = append(ws, fmt.Sprintf("%d%%N", x))
+					}
+					who = "(Some " + coqList(ws) + ")"
+				}
+			} else if s.Who >= 0 {
+				who = fmt.Sprintf("(Some [%d%%N])", s.Who)
+			}
+			steps = append(steps, fmt.Sprintf("(%s, %s, %s, %s)", coqList(units), coqBool(s.OtherOK), who, coqU64s(seqs)))
 		}
 		hs = append(hs, fmt.Sprintf("mk_hist (mk_node (mk_cfg %d%%Z %s) %q %s) %d %s\n     %s",
 			sgThisEIP155, coqBool(h.Allow), chainID, coqList(nums), na, coqList(init), coqList(steps)))
@@ -766,9 +805,28 @@ func sgWhy(what string) string {
 
 // ---------------------------------------------------------------- the mutation cases
 type sgInput struct {
-	Kind  string `json:"kind"`  // "mutations" | "blocks"
+	Kind  string `json:"kind"`  // "mutations" | "blocks" | "multi"
 	Route string `json:"route"` // for mutations
 	Seed  uint64 `json:"seed"`
+	// kind "multi": the explicit script (generated from the seed when absent): initial sequences of the
+	// sender accounts, then the Cosmos transactions, each a list of messages; a block boundary before
+	// transaction number Boundary (0 = none)
+	Seq0     []uint64      `json:"seq0,omitempty"`
+	Txs      [][]sgMsgSpec `json:"txs,omitempty"`
+	Boundary int           `json:"boundary,omitempty"`
+}
+
+// sgMsgSpec names one signed Ethereum transaction of a "multi" case: (from, nonce, alt) always denotes
+// the same signed transaction (same hash) within a case; alt > 0 = another transaction the same account
+// signed with the same nonce (a replacement); mut = a field changed AFTER signing (the recipient), so
+// that the signature recovers to a stranger; fund = that stranger exists, is funded and has this nonce
+// as its sequence, so that the altered message is executable -- on the stranger's behalf.
+type sgMsgSpec struct {
+	From  int    `json:"from"`
+	Nonce uint64 `json:"nonce"`
+	Alt   int    `json:"alt,omitempty"`
+	Mut   bool   `json:"mut,omitempty"`
+	Fund  bool   `json:"fund,omitempty"`
 }
 
 type sgEthSubmit struct {
@@ -1342,6 +1400,456 @@ func (w *sgWorld) runBlocks(c *sgCase, r *Rng) {
 	c.hists = append(c.hists, h)
 }
 
+// ---------------------------------------------------------------- multi-message Ethereum transactions
+// sgStartChain: a fresh real application with the first block begun (the single genesis validator proposes,
+// the EVM needs the coinbase).
+func sgStartChain() (*app.Haqq, tmproto.Header, sdk.Context) {
+	a, _ := app.Setup(false, nil, chainID)
+	hdr := tmproto.Header{Height: 1, ChainID: chainID, Time: time.Unix(1_700_000_000, 0).UTC()}
+	cctx := a.BaseApp.NewContext(false, hdr) // the deliver state left by InitChain
+	if vals := a.StakingKeeper.GetAllValidators(cctx); len(vals) > 0 {
+		if ca, err := vals[0].GetConsAddr(); err == nil {
+			hdr.ProposerAddress = ca.Bytes()
+		}
+	}
+	a.BeginBlock(abci.RequestBeginBlock{Header: hdr})
+	return a, hdr, a.BaseApp.NewContext(false, hdr)
+}
+
+func sgSpecKey(sp sgMsgSpec) string {
+	return fmt.Sprintf("%d/%d/%d/%v", sp.From, sp.Nonce, sp.Alt, sp.Mut)
+}
+
+// sgGenMulti writes the script of a "multi" case into the input: 2-3 sender accounts, 5-9 Cosmos
+// transactions of 1-4 MsgEthereumTx.  A shadow of the sequences (advanced only by transactions that are
+// in order) keeps the nonces meaningful.
+func sgGenMulti(in *sgInput) {
+	r := NewRng(in.Seed ^ 0x6d756c7469)
+	na := 2 + r.Intn(2)
+	sim := make([]uint64, na)
+	for i := range sim {
+		sim[i] = uint64(r.Intn(4))
+		if r.Chance(5) {
+			sim[i] = 1 << 40
+		}
+	}
+	in.Seq0 = append([]uint64{}, sim...)
+	executed := map[string]bool{}
+	done := []sgMsgSpec{}
+	M := func(from int, nonce uint64) sgMsgSpec { return sgMsgSpec{From: from, Nonce: nonce} }
+	ntx := 5 + r.Intn(5)
+	for t := 0; t < ntx; t++ {
+		i := r.Intn(na)
+		j := (i + 1 + r.Intn(na-1)) % na
+		n, m := sim[i], sim[j]
+		var tx []sgMsgSpec
+		dup := func() {
+			switch r.Intn(3) {
+			case 0:
+				tx = []sgMsgSpec{M(i, n), M(i, n)}
+			case 1:
+				tx = []sgMsgSpec{M(i, n), M(i, n+1), M(i, n+1)}
+			default:
+				tx = []sgMsgSpec{M(i, n), M(i, n), M(i, n+1)}
+			}
+		}
+		switch k := r.Intn(100); {
+		case k < 16: // one sender, nonces n, n+1, ...
+			for q, l := 0, 2+r.Intn(2); q < l; q++ {
+				tx = append(tx, M(i, n+uint64(q)))
+			}
+		case k < 28: // two senders interleaved, each in order
+			tx = []sgMsgSpec{M(i, n), M(j, m), M(i, n+1)}
+			if r.Bool() {
+				tx = append(tx, M(j, m+1))
+			}
+		case k < 34:
+			tx = []sgMsgSpec{M(i, n)}
+		case k < 48: // the same signed transaction twice
+			dup()
+		case k < 57: // two different transactions signed with the same nonce (a replacement pair)
+			tx = []sgMsgSpec{M(i, n), {From: i, Nonce: n, Alt: 1}}
+			if r.Chance(30) {
+				tx = append(tx, M(i, n+1))
+			}
+		case k < 65: // a gap, a nonce from the future
+			switch r.Intn(3) {
+			case 0:
+				tx = []sgMsgSpec{M(i, n), M(i, n+2)}
+			case 1:
+				tx = []sgMsgSpec{M(i, n+1)}
+			default:
+				tx = []sgMsgSpec{M(i, n), M(i, n+1), M(i, n+3)}
+			}
+		case k < 70: // the right nonces in the wrong order
+			tx = []sgMsgSpec{M(i, n+1), M(i, n)}
+		case k < 82: // a message that was executed in an earlier transaction, alone or beside a fresh one
+			if len(done) == 0 {
+				dup()
+				break
+			}
+			old := done[r.Intn(len(done))]
+			cur := M(old.From, sim[old.From])
+			switch r.Intn(3) {
+			case 0:
+				tx = []sgMsgSpec{cur, old}
+			case 1:
+				tx = []sgMsgSpec{old, cur}
+			default:
+				tx = []sgMsgSpec{old}
+			}
+		case k < 92: // a duplicate behind another sender's message
+			switch r.Intn(3) {
+			case 0:
+				tx = []sgMsgSpec{M(i, n), M(j, m), M(i, n)}
+			case 1:
+				tx = []sgMsgSpec{M(i, n), M(j, m), M(j, m)}
+			default:
+				tx = []sgMsgSpec{M(i, n), M(j, m), M(i, n+1), M(j, m)}
+			}
+		default: // a message altered after signing, beside an honest one
+			mut := sgMsgSpec{From: i, Nonce: n + 1, Mut: true, Fund: r.Bool()}
+			tx = []sgMsgSpec{M(i, n), mut}
+		}
+		in.Txs = append(in.Txs, tx)
+		// advance the shadow if the transaction is in order
+		tmp := append([]uint64{}, sim...)
+		seen := map[string]bool{}
+		ok := true
+		for _, sp := range tx {
+			k := sgSpecKey(sp)
+			if executed[k] || seen[k] || (sp.Mut && !sp.Fund) || (!sp.Mut && sp.Nonce != tmp[sp.From]) {
+				ok = false
+				break
+			}
+			seen[k] = true
+			if !sp.Mut {
+				tmp[sp.From]++
+			}
+		}
+		if ok {
+			sim = tmp
+			for _, sp := range tx {
+				executed[sgSpecKey(sp)] = true
+				if !sp.Mut {
+					done = append(done, sp)
+				}
+			}
+		}
+	}
+	if len(done) == 0 { // nothing but refused transactions so far: finish with an in-order batch
+		in.Txs = append(in.Txs, []sgMsgSpec{M(0, sim[0]), M(0, sim[0]+1)})
+	}
+	if ntx > 3 && r.Chance(50) {
+		in.Boundary = 1 + r.Intn(ntx-1)
+	}
+}
+
+type sgSigned struct {
+	spec  sgMsgSpec
+	tx    *ethtypes.Transaction
+	hash  string
+	to    common.Address
+	value *big.Int
+	cost  *big.Int // the most its sender can be charged: value + gas * price
+	rec   int      // interned account the signature recovers to, -1 = none
+	desc  string
+	label string
+}
+
+func (w *sgWorld) runMulti(c *sgCase, in *sgInput) {
+	if len(in.Txs) == 0 {
+		sgGenMulti(in)
+	}
+	na := len(in.Seq0)
+	for _, tx := range in.Txs {
+		for _, sp := range tx {
+			if sp.From+1 > na {
+				na = sp.From + 1
+			}
+		}
+	}
+	for len(in.Seq0) < na {
+		in.Seq0 = append(in.Seq0, 0)
+	}
+	a, hdr, ctx := sgStartChain()
+	w2 := &sgWorld{App: a, TxCfg: w.TxCfg, Signer: w.Signer, Ante: sgAnte(a, w.TxCfg)}
+	kr := NewRng(in.Seed)
+	accts := []*sgAcct{}
+	for i := 0; i < na; i++ {
+		x := sgNewAcct(kr)
+		accts = append(accts, x)
+		sgInstall(ctx, a, x.Acc, in.Seq0[i], true)
+		c.intern(x.Acc)
+	}
+	baseFee := a.FeeMarketKeeper.GetBaseFee(ctx)
+	if baseFee == nil {
+		baseFee = big.NewInt(0)
+	}
+	price := new(big.Int).Add(new(big.Int).Mul(baseFee, big.NewInt(3)), big.NewInt(7))
+
+	// ---- all signed messages of the script; the accounts they recover to are interned (and the funded
+	// strangers installed) before the history starts
+	signed := map[string]*sgSigned{}
+	get := func(sp sgMsgSpec) *sgSigned {
+		key := sgSpecKey(sp)
+		if g, ok := signed[key]; ok {
+			return g
+		}
+		rr := NewRng(in.Seed ^ (uint64(sp.From+1)*0x9E3779B97F4A7C15 + sp.Nonce*0xC2B2AE3D27D4EB4F + uint64(sp.Alt+1)*0x165667B19E3779F9))
+		to := common.BytesToAddress(rr.Bytes(20))
+		f := sgEthFields{Type: rr.Intn(3), ChainID: big.NewInt(sgThisEIP155), Nonce: sp.Nonce, GasPrice: price, FeeCap: price, Tip: big.NewInt(1),
+			Gas: 100000, To: &to, Value: big.NewInt(int64(1 + rr.Intn(sgTransferUnit)))}
+		tx, err := ethtypes.SignTx(f.build(), w.Signer, accts[sp.From].Key)
+		if err != nil {
+			panic(err)
+		}
+		label := fmt.Sprintf("account%d/nonce%d", sp.From, sp.Nonce)
+		if sp.Alt > 0 {
+			label += fmt.Sprintf("/replacement%d", sp.Alt)
+		}
+		if sp.Mut { // the recipient is changed after signing: same V, R, S over other content
+			x := sgFieldsOf(tx)
+			to = common.BytesToAddress(rr.Bytes(20))
+			x.To = &to
+			tx = x.build()
+			label += "/recipient-altered-after-signing"
+		}
+		g := &sgSigned{spec: sp, tx: tx, hash: tx.Hash().Hex()[:12], to: to, value: tx.Value(), label: label}
+		g.cost = new(big.Int).Add(tx.Value(), new(big.Int).Mul(price, new(big.Int).SetUint64(tx.Gas())))
+		g.desc, g.rec = w2.ethDescriptor(c, tx)
+		signed[key] = g
+		return g
+	}
+	for _, tx := range in.Txs {
+		for _, sp := range tx {
+			g := get(sp)
+			if sp.Mut && sp.Fund && g.rec >= na && sgSeq(ctx, a, c.accts[g.rec]) == 0 && sgBal(ctx, a, c.accts[g.rec]).Sign() == 0 {
+				sgInstall(ctx, a, c.accts[g.rec], sp.Nonce, true)
+				c.tags["stranger-funded"] = true
+			}
+		}
+	}
+	for len(c.accnum) < len(c.accts) {
+		c.accnum = append(c.accnum, sgAccNum(ctx, a, c.accts[len(c.accnum)]))
+	}
+	bals := func() []*big.Int {
+		out := make([]*big.Int, len(c.accts))
+		for i, x := range c.accts {
+			out[i] = sgBal(ctx, a, x)
+		}
+		return out
+	}
+	h := sgHist{Init: c.snapshot(ctx, a)}
+	execTotal := map[string]int{}
+	for t, specs := range in.Txs {
+		if in.Boundary > 0 && t == in.Boundary {
+			a.EndBlock(abci.RequestEndBlock{Height: hdr.Height})
+			a.Commit()
+			hdr.Height++
+			hdr.Time = hdr.Time.Add(5 * time.Second)
+			a.BeginBlock(abci.RequestBeginBlock{Header: hdr})
+			ctx = a.BaseApp.NewContext(false, hdr)
+			c.tags["block-boundary"] = true
+		}
+		msgs := []*sgSigned{}
+		sdkMsgs := []sdk.Msg{}
+		labels, descs := []string{}, []string{}
+		for _, sp := range specs {
+			g := get(sp)
+			m := &evmtypes.MsgEthereumTx{}
+			if err := m.FromEthereumTx(g.tx); err != nil {
+				panic(err)
+			}
+			msgs = append(msgs, g)
+			sdkMsgs = append(sdkMsgs, m)
+			labels = append(labels, g.label+" "+g.hash)
+			descs = append(descs, g.desc)
+		}
+		what := fmt.Sprintf("tx%d", t)
+		// /repo's own builder of (multi-message) Ethereum transactions; nil key = the messages are signed already
+		ctxTx, err := utiltx.PrepareEthTx(w2.TxCfg, a, nil, sdkMsgs...)
+		if err != nil {
+			c.fail("%s: cannot build: %v", what, err)
+			continue
+		}
+		bz, err := w2.TxCfg.TxEncoder()(ctxTx)
+		if err != nil {
+			c.fail("%s: cannot encode: %v", what, err)
+			continue
+		}
+		pre, preBal := c.snapshot(ctx, a), bals()
+		preTo := map[string]*big.Int{}
+		for _, g := range msgs {
+			preTo[g.hash] = sgBal(ctx, a, sdk.AccAddress(g.to.Bytes()))
+		}
+		// ---- what the property says about this transaction (walk over the messages with the sequences as they are)
+		bad, cat := "", "in-order"
+		{
+			cur := append([]uint64{}, pre...)
+			seen := map[string]bool{}
+			for k, g := range msgs {
+				switch {
+				case g.rec < 0:
+					bad, cat = fmt.Sprintf("message %d (%s) carries no valid signature", k, g.label), "no-signer"
+				case seen[g.hash]:
+					bad, cat = fmt.Sprintf("message %d is the signed transaction %s (%s) a second time", k, g.hash, g.label), "duplicate-in-tx"
+				case execTotal[g.hash] > 0:
+					bad, cat = fmt.Sprintf("message %d replays the signed transaction %s (%s), executed in an earlier transaction", k, g.hash, g.label), "replay"
+				case g.spec.Mut && preBal[g.rec].Cmp(g.cost) < 0:
+					bad, cat = fmt.Sprintf("message %d (%s) was altered after signing; the account its signature now recovers to cannot pay", k, g.label), "altered"
+				case g.tx.Nonce() < cur[g.rec]:
+					bad, cat = fmt.Sprintf("message %d (%s) uses nonce %d, already used: the account's sequence at that point is %d", k, g.label, g.tx.Nonce(), cur[g.rec]), "used-nonce"
+				case g.tx.Nonce() > cur[g.rec]:
+					bad, cat = fmt.Sprintf("message %d (%s) has nonce %d from the future: the account's sequence at that point is %d", k, g.label, g.tx.Nonce(), cur[g.rec]), "future-nonce"
+				}
+				if bad != "" {
+					break
+				}
+				seen[g.hash] = true
+				cur[g.rec]++
+			}
+		}
+		// ---- the real ante handler on a discarded branch (error class), then the real DeliverTx
+		// (one case in three runs the ante handler in CheckTx mode: the nonce rule is the same in every mode)
+		bctx, _ := ctx.CacheContext()
+		if in.Seed%3 == 0 {
+			bctx = bctx.WithIsCheckTx(true)
+			c.tags["mode:CheckTx"] = true
+		}
+		aerr := w2.sgRunAnte(bctx, bz)
+		class, modelled := sgErrClass(aerr)
+		res := a.DeliverTx(abci.RequestDeliverTx{Tx: bz})
+		accepted := res.Code == 0
+		post, postBal := c.snapshot(ctx, a), bals()
+		// how often every signed message executed: its private recipient's balance
+		execs := map[string]int{}
+		anyExec := false
+		for _, g := range msgs {
+			if _, ok := execs[g.hash]; ok {
+				continue
+			}
+			d := new(big.Int).Sub(sgBal(ctx, a, sdk.AccAddress(g.to.Bytes())), preTo[g.hash])
+			q, rem := new(big.Int).QuoRem(d, g.value, new(big.Int))
+			if rem.Sign() != 0 || d.Sign() < 0 || !q.IsInt64() {
+				c.fail("%s: the recipient of %s received %s, not a multiple of the signed value %s", what, g.label, d, g.value)
+			}
+			execs[g.hash] = int(q.Int64())
+			anyExec = anyExec || q.Sign() > 0
+		}
+		var whos []int
+		executed := []int{}
+		{
+			used := map[string]int{}
+			cur := append([]uint64{}, pre...)
+			for _, g := range msgs {
+				executed = append(executed, execs[g.hash])
+				if used[g.hash] >= execs[g.hash] {
+					continue
+				}
+				used[g.hash]++
+				if g.rec < 0 {
+					c.fail("%s: %s executed although no account can be recovered from its signature", what, g.label)
+					continue
+				}
+				whos = append(whos, g.rec)
+				// the property: only at the account's then-current sequence ...
+				if g.tx.Nonce() != cur[g.rec] {
+					c.fail("%s: the signed transaction %s (%s) was executed with nonce %d while the account's sequence was %d",
+						what, g.hash, g.label, g.tx.Nonce(), cur[g.rec])
+				}
+				cur[g.rec]++
+			}
+			if accepted && whos == nil {
+				whos = []int{}
+			}
+			if !accepted {
+				whos = nil
+			}
+		}
+		// ... and at most once
+		for _, g := range msgs {
+			if n, ok := execs[g.hash]; ok && n > 0 {
+				execTotal[g.hash] += n
+				delete(execs, g.hash)
+				if execTotal[g.hash] > 1 {
+					c.fail("%s: ONE signature, %d executions: the signed transaction %s (%s, value %s) has now been executed %d times -- its recipient was paid %d x %s",
+						what, execTotal[g.hash], g.hash, g.label, g.value, execTotal[g.hash], execTotal[g.hash], g.value)
+				}
+			}
+		}
+		seqMoved, balMoved := false, false
+		for i := range post {
+			seqMoved = seqMoved || post[i] != pre[i]
+			balMoved = balMoved || postBal[i].Cmp(preBal[i]) != 0
+		}
+		if (aerr == nil) != accepted {
+			c.fail("%s: the ante handler says %v, DeliverTx says code %d (%s)", what, aerr, res.Code, res.Log)
+		}
+		if !accepted && (seqMoved || balMoved || anyExec) {
+			c.fail("%s: DeliverTx failed (code %d) but left effects: sequences %v -> %v, messages executed %v", what, res.Code, pre, post, executed)
+		}
+		if bad != "" {
+			// a replayed / out-of-order / altered message: the whole Cosmos transaction fails, without effect
+			if accepted {
+				c.fail("%s [%s]: %s -- the whole Cosmos transaction must fail without effect, but DeliverTx accepted it (code 0): sequences %v -> %v, executions per message %v",
+					what, strings.Join(labels, ", "), bad, pre, post, executed)
+			}
+		} else {
+			if !accepted {
+				c.fail("%s [%s]: correctly signed messages, each with its sender's current sequence, were rejected: code %d %s",
+					what, strings.Join(labels, ", "), res.Code, res.Log)
+			} else {
+				c.nAccepted++
+				for k, e := range executed {
+					if e != 1 {
+						c.fail("%s: message %d (%s) of an accepted in-order transaction executed %d times", what, k, msgs[k].label, e)
+					}
+				}
+			}
+		}
+		if accepted {
+			// nobody pays for messages that did not execute on his behalf; every sequence moves by the number of those that did
+			allowed := make([]*big.Int, len(post))
+			cnt := make([]uint64, len(post))
+			for i := range allowed {
+				allowed[i] = new(big.Int)
+			}
+			for _, who := range whos {
+				cnt[who]++
+			}
+			used := map[string]int{}
+			for k, g := range msgs {
+				if g.rec >= 0 && used[g.hash] < executed[k] {
+					used[g.hash]++
+					allowed[g.rec].Add(allowed[g.rec], g.cost)
+				}
+			}
+			for i := range post {
+				if post[i] != pre[i]+cnt[i] {
+					c.fail("%s: account %d's sequence went %d -> %d while %d message(s) executed on its behalf", what, i, pre[i], post[i], cnt[i])
+				}
+				if paid := new(big.Int).Sub(preBal[i], postBal[i]); paid.Cmp(allowed[i]) > 0 {
+					c.fail("%s: account %d paid %s, more than the messages executed on its behalf can cost (%s)", what, i, paid, allowed[i])
+				}
+			}
+		}
+		who := -1
+		if len(whos) > 0 {
+			who = whos[0]
+		}
+		log := res.Log
+		if len(log) > 140 {
+			log = log[:140]
+		}
+		h.Steps = append(h.Steps, sgSub{What: what + ":" + cat, Class: class, Who: who, OtherOK: modelled, Msgs: labels, Whos: whos, Executed: executed,
+			SeqBefore: pre, SeqAfter: post, Deliver: fmt.Sprintf("code %d %s", res.Code, log), coqs: descs, seqs: post})
+		c.tags["multi:"+cat+":"+class] = true
+		c.tags[fmt.Sprintf("multi:%d-msgs", len(msgs))] = true
+	}
+	c.hists = append(c.hists, h)
+}
+
 // ---------------------------------------------------------------- driver
 func sgRunCase(id string, in sgInput) Case {
 	c := &sgCase{tags: map[string]bool{}, bodies: map[string]int{}}
@@ -1351,6 +1859,10 @@ func sgRunCase(id string, in sgInput) Case {
 		e := forkEnv() // only to share the tx config / signer
 		c.tags["kind:blocks"] = true
 		sgWorldOf(e).runBlocks(c, r)
+	case "multi":
+		e := forkEnv() // only to share the tx config / signer
+		c.tags["kind:multi"] = true
+		sgWorldOf(e).runMulti(c, &in)
 	default:
 		e := forkEnv()
 		w := sgWorldOf(e)
@@ -1406,11 +1918,14 @@ func sigsDriver(cfg Config, out *Out) error {
 	r := NewRng(cfg.Seed)
 	for i := 0; i < cfg.N; i++ {
 		in := sgInput{Seed: r.U64()}
-		if i%5 == 4 { // one case in five is a block history
+		switch i % 6 {
+		case 5: // one case in six is a block history of single-message transactions of all routes
 			in.Kind = "blocks"
-		} else {
+		case 2: // one in six a history of multi-message Ethereum transactions
+			in.Kind = "multi"
+		default: // four in six: one signed transaction of one route and all its mutations
 			in.Kind = "mutations"
-			in.Route = sgRoutes[(i-i/5)%len(sgRoutes)]
+			in.Route = sgRoutes[(i-(i+3)/6-(i+0)/6)%len(sgRoutes)]
 		}
 		out.Emit(sgRunCase(fmt.Sprintf("s%d-%d", cfg.Seed, i), in))
 	}
